@@ -25,6 +25,10 @@ pub struct EncSpec {
     pub version: String,
     /// trailing junk after the last stored chunk
     pub trailing: u8,
+    /// order of the descriptor TABLE: sort key per descriptor (ties by index); empty = order of first occurrence in the
+    /// source (what bita's writers produce). The schema does not tie the table order to anything: rebuild_order indexes it.
+    #[serde(default)]
+    pub desc_keys: Vec<u16>,
 }
 
 pub struct Encoded {
@@ -159,6 +163,22 @@ pub fn encode_archive(source: &[u8], cfg: &ArchCfg, spec: &EncSpec) -> Encoded {
         metadata: spec.metadata.clone(),
         unknown_fields: 0,
     };
+    let mut dict = dict;
+    let mut rel = rel;
+    if !spec.desc_keys.is_empty() && dict.chunk_descriptors.len() > 1 {
+        let n = dict.chunk_descriptors.len();
+        let mut perm: Vec<usize> = (0..n).collect();
+        perm.sort_by_key(|i| (spec.desc_keys[*i % spec.desc_keys.len()], *i));
+        let mut new_index = vec![0u32; n];
+        for (pos, &old) in perm.iter().enumerate() {
+            new_index[old] = pos as u32;
+        }
+        dict.chunk_descriptors = perm.iter().map(|&old| dict.chunk_descriptors[old].clone()).collect();
+        rel = perm.iter().map(|&old| rel[old]).collect();
+        for r in dict.rebuild_order.iter_mut() {
+            *r = new_index[*r as usize];
+        }
+    }
     let dict_bytes = fmt::encode_dictionary(&dict, &spec.opts, &spec.unknowns);
     let header_len = fmt::header_len_for(dict_bytes.len());
     let chunk_data_offset = (header_len + spec.slack as usize) as u64;
